@@ -6,6 +6,9 @@ HERE = os.path.dirname(os.path.dirname(os.path.abspath(__file__)))
 
 # id -> (technique, level text, level note, design ref)
 CLAIMED = {
+ "C12": ("effect/ownership analysis of the table generation (no nondeterministic source, draws only on the seeded generator, must-written-before-read dataflow over Reset), E7 expression shape of Sample/IntRange/Int63/NextBlock, relational bounds analysis (E8) for IntRange's [min,max] ensures and the table size, lock-region rule over go/ssa",
+         "Decides: the tables are a function of seed, bounds and bias flag only (no other randomness, no map iteration, no carry-over from the previous Reset, non-nil seeds at every call site); Sample = minValue + values[i or alias[i]] with an unmodified permutation prefix; generator layout seed[0:16]/seed[16:24], OFB step, returned copy, 63-bit big-endian outputs; IntRange in [min,max] with range (max+1)-min; 1 <= table size <= 100; Reset/Sample in one critical section. Probabilities and alias-table exactness (floating point) are not decided.",
+         "go/types+go/ssa faithful; math/rand.Rand deterministic over its Source; contract table", "DESIGN.md section 4, C12"),
  "C15": ("relational bounds analysis of the parsers, must-pass-through (packet and handshake MACs), accumulator-state reachability rule for the re-run parser, freshness/ownership of partial-packet state, typestate of ticket use, E7 layout terms vs spec, C10 instances over go/ssa",
          "Decides: all parser/builder bounds (the F2 defect was found here and fixed); only MAC-verified payload-flag packets surface, MAC over header-then-body ciphertext, header layout agreement, private copies of partial MAC/header; tickets deleted before being handed out, expired ones refused, persisted issue time kept, fallback to UniformDH with no prior write; handshake MAC guard and no retry after feeding the running HMAC; handshake layouts, key-material offsets, constants; deadline/loop/short-read/fault rules. Byte-exact delivery against a conforming server is not decided.",
          "go/types+go/ssa faithful; contract table; checker/spec/scramblesuit.json", "DESIGN.md section 4, C15"),
